@@ -222,6 +222,10 @@ Proof.
     cbn [step pid pcon ppid forked ccon depthc serial log].
     destruct d as [|d]; [|split; [split; [apply mkJ; cbn; auto|exact Hown]|nolog]].
     destruct pc as [k|]; [|split; [split; [apply mkJ; cbn; auto|exact Hown]|nolog]].
+    (* in the process that created it the recorded pid is the process' own: Pool.disconnect closes, whatever its spelling *)
+    assert (Hsame : optz_eqb pp (Some q) = true).
+    { apply optz_eqb_some. rewrite (Hpool k eq_refl), (Hown k eq_refl). reflexivity. }
+    rewrite Hsame, andb_false_r.
     split.
     + split; [|cbn; intros x Hx; discriminate Hx].
       apply mkJ; cbn; [reflexivity| |intros x Hx; discriminate Hx|exact Hd].
@@ -348,3 +352,61 @@ Proof.
   unfold run, fork; cbn [fold_left step pid pcon ppid forked ccon depthc serial log]. rewrite Hnone, Hpc, Hpp.
   rewrite (pool_connect_after_fork_failing q p c _ _ Hne). cbn. repeat split; reflexivity.
 Qed.
+
+(* ------------------------------------------------------------------ db.disconnect() in the child *)
+
+(* with a pid check in Pool.disconnect the child may also call db.disconnect(): the inherited connection is parked, not closed *)
+Lemma step_J_disconnect : forall q s,
+  disconnect_checks_pid = true -> J q s ->
+  J q (step s ODisconnect) /\ exists e, log (step s ODisconnect) = log s ++ e /\ Forall (own q) e.
+Proof.
+  intros q [p pc pp fk cc d sr lg] Hflag (Hp & Hc & Hpool & Hd); cbn in Hp, Hc, Hpool, Hd; subst p.
+  cbn [step pid pcon ppid forked ccon depthc serial log].
+  destruct d as [|d]; [|split; [apply mkJ; cbn; auto|nolog]].
+  destruct pc as [k|]; [|split; [apply mkJ; cbn; auto|nolog]].
+  rewrite Hflag. cbn [andb].
+  destruct (optz_eqb pp (Some q)) eqn:E; cbn [negb].
+  - apply optz_eqb_some in E. pose proof (Hpool k eq_refl) as Hk. rewrite E in Hk. inversion Hk as [Hcr].
+    split.
+    + apply mkJ; cbn; [reflexivity| |intros x Hx; discriminate Hx|exact Hd].
+      intros x Hx. rewrite (Hd eq_refl) in Hx; discriminate Hx.
+    + eexists; split; [reflexivity|]. repeat constructor.
+  - split; [|nolog].
+    apply mkJ; cbn; [reflexivity| |intros x Hx; discriminate Hx|exact Hd].
+    intros x Hx. rewrite (Hd eq_refl) in Hx; discriminate Hx.
+Qed.
+
+Lemma run_J_all : forall q ops s,
+  disconnect_checks_pid = true -> J q s ->
+  J q (run s ops) /\ exists e, log (run s ops) = log s ++ e /\ Forall (own q) e.
+Proof.
+  intros q ops; induction ops as [|o ops IH]; intros s Hflag HJ.
+  - cbn. split; [exact HJ|exists []; rewrite app_nil_r; auto].
+  - change (run s (o :: ops)) with (run (step s o) ops).
+    assert (H1 : J q (step s o) /\ exists e, log (step s o) = log s ++ e /\ Forall (own q) e).
+    { destruct (is_session_op o) eqn:Ho; [apply step_J; assumption|].
+      destruct o; cbn in Ho; try discriminate Ho. apply step_J_disconnect; assumption. }
+    destruct H1 as [HJ1 [e1 [E1 F1]]].
+    destruct (IH (step s o) Hflag HJ1) as [HJ2 [e2 [E2 F2]]].
+    split; [exact HJ2|]. exists (e1 ++ e2). rewrite E2, E1, app_assoc. split; [reflexivity|apply Forall_app; auto].
+Qed.
+
+Theorem child_safe_with_disconnect : forall p q parent_ops child_ops,
+  disconnect_checks_pid = true ->
+  let par := run (init p) parent_ops in
+  ccon par = None ->
+  Forall (own q) (log (run (fork par q) child_ops)).
+Proof.
+  intros p q pops cops Hflag par Hnone.
+  destruct (run_K p pops (init p) (J_init p)) as [[HJ _] _].
+  pose proof (J_fork p q par HJ Hnone) as HJq.
+  destruct (run_J_all q cops (fork par q) Hflag HJq) as [_ [e [E F]]].
+  rewrite E. cbn. exact F.
+Qed.
+
+(* as Pool.disconnect is now (no pid check): the child's db.disconnect() closes the connection object the parent created *)
+Lemma child_disconnect_witness :
+  if disconnect_checks_pid then True
+  else let par := run (init 1) [OBegin; OQuery; OEnd] in
+       ccon par = None /\ log (run (fork par 2) [ODisconnect]) = [EClose 2 (1, 1)].
+Proof. vm_compute; first [exact I | split; reflexivity]. Qed.
